@@ -302,7 +302,12 @@ def streams(tier):
     n = 600 if tier == "quick" else 20000
     return [(core.Stream("broker-deliver", "broker", gen, predicate, nontrivial, canon=canon, keep_prefix=1, hint=wire.shared_hints), n),
             (core.Stream("broker-backlog", "broker", gen_backlog, predicate_backlog, nontrivial_backlog, canon=canon, keep_prefix=1,
-                         hint=wire.shared_hints), n // 2)]
+                         hint=wire.shared_hints), n // 2),
+            _par(tier)]
+
+def _par(tier):
+    from . import c01par
+    return c01par.stream(tier)
 
 def run(r):
     return core.standard_run(r, __import__(__name__, fromlist=["x"]))
@@ -311,6 +316,8 @@ RULE = ("wire scenarios against a real in-process broker (in-memory listener, sc
         "subscription tables over levels {a,b,'',+,#,$x} x QoS x NoLocal x RAP x subscription id, both delivery modes, publishes from "
         "clients and the Publisher API, every op run to exact quiescence; compared with the Lean broker model after canonicalising "
         "broker-chosen packet ids and the order of copies in one burst; the Python predicate recomputes the expected copies with an "
-        "independent MQTT 4.7 matcher. non-trivial = a client receives >= 2 copies in one step, or NL/RAP/sub-id present and traffic flows")
+        "independent MQTT 4.7 matcher; stream broker-concurrent: 2-4 connections send 2-12 PUBLISH packets at the same moment (one goroutine each, "
+        "4 Ps), every subscriber must receive exactly the expected copies and each publisher's messages in the order sent. "
+        "non-trivial = a client receives >= 2 copies in one step, or NL/RAP/sub-id present and traffic flows")
 ASSUME = ["deliverMessage runs under server.mu (atomic step)", "quiescence detection by goroutine states (harness/internal/wire)",
           "all subscribers online with large windows in this stream (offline / flow control: C03, C05)"]
